@@ -7,7 +7,9 @@
 # To run by hand (the package must precede the rapid flags):
 #   cd /verif/harness && go test -tags "badger filelog verif" -modfile /verif/build/repo/verif.mod ./props/c13 -run 'TestC13Machine$' -rapid.checks 100 -rapid.seed 7 -rapid.nofailfile
 # Known findings (7 root causes, 15 signatures incl. the /negative-coords variants) with hand-minimised replay files in
-# harness/props/c13/repro/ are described in harness/props/c13/findings.go.
+# harness/props/c13/repro/ are described in harness/props/c13/findings.go (4 of them have since been fixed in /repo).
+# Follow-up round: pairs with 2-3 relationships per direction and multi-partner elements added (a seeded "deleteRel stops after the
+# first matching relationship" was missed before; now caught by 8 of 8 shards of 40 cases within seconds); per-case cost unchanged.
 ENTRY = {
     "C13": {
         "pkg": "c13",
@@ -20,11 +22,19 @@ ENTRY = {
             "move/within-block", "move/cross-block", "move/onto-other-body", "move/onto-partner-block", "delete/with-partner",
             "overwrite-position", "overwrite/tag-change", "reload", "reload-only", "labelsz", "roi",
             "negative-coords", "border-position", "outside-label-extent", "ingest-after-elements", "version",
+            # relationship shapes (a pair holding 2-3 relationships of different kinds per direction, partners in the same / another block,
+            # one element with several partners) and the deletes / moves that must clean up or redirect every one of them
+            "rels/multi-relationship-pair", "rels/multi-relationship-pair/cross-block", "rels/multi-relationship-pair/same-block", "rels/multi-partner",
+            "delete/multi-relationship-pair", "delete/multi-relationship-pair/cross-block", "delete/multi-partner",
+            "move/multi-relationship-pair", "move/multi-relationship-pair/cross-block", "move/multi-partner",
+            # shapes of the four defects fixed in /repo, exercised unsteered again
+            "tag-drop-and-add-in-one-post", "move/same-body", "overwrite/kind-change-on-body", "reload/non-synaptic-kinds",
         ],
         "rule": "rapid-generated model-based histories (<=25 ops, <=12 elements) on a labelmap L (16^3 blocks, 3x2x2 block extent at origins incl. negative block "
                 "coordinates, canvas painted from palette supervoxels up to 2^40), an annotation instance A synced to L, a labelsz Z synced to A and an ROI R with A's "
                 "block size: POST elements (new positions in and one block around the label extent, biased to block borders; re-post of an existing element with "
-                "changed kind/tags/props keeping its relationships; mutual relationships between elements of one POST; one POST in which an element drops a tag that "
+                "changed kind/tags/props keeping its relationships; mutual relationships between elements of one POST, a pair holding 1-3 relationships of different "
+                "Rel kinds per direction, partners in the same or in another block, one element possibly related to several partners; one POST in which an element drops a tag that "
                 "another element of the same block carries), DELETE element, POST move (within the block, to another block, onto another body, into a partner's block, "
                 "a few voxels away, outside the label extent; onto unoccupied voxels), POST blocks (one block: kept/changed/dropped partner-less elements + new ones) "
                 "followed by POST reload (inmemory true/false, check true/false) and a labelsz reload, POST reload alone, on L: ingest (POST raw / POST blocks, before or "
